@@ -35,11 +35,86 @@ def seeded(seed, n):
     return out
 
 
+def float_cases(seed, n):
+    """Point-on-line over moderate-magnitude floats (ordinates whose differences are NOT exact in float64):
+    one-decimal segments with the point (a) exactly on the segment when that point is representable, (b) the
+    rounded image of a point of the segment, (c) another one-decimal point inside the envelope, (d) an endpoint."""
+    from fractions import Fraction as F
+    r = random.Random(seed)
+    out = []
+    while len(out) < n:
+        dec = r.choice([10, 10, 100, 8, 3])
+        a = [r.randrange(0, 1000) / dec, r.randrange(0, 1000) / dec]
+        b = [r.randrange(0, 1000) / dec, r.randrange(0, 1000) / dec]
+        if a == b:
+            continue
+        fam = ["exact-on", "rounded-on", "decimal-collinear", "decimal-near", "decimal-collinear", "endpoint", "decimal-collinear", "beyond"][len(out) % 8]
+        if fam == "exact-on":
+            t = F(r.randrange(1, 16), 16)
+            px, py = F(a[0]) + t * (F(b[0]) - F(a[0])), F(a[1]) + t * (F(b[1]) - F(a[1]))
+            if F(float(px)) != px or F(float(py)) != py:
+                continue
+            p = [float(px), float(py)]
+        elif fam == "rounded-on":
+            t = r.random()
+            p = [a[0] + t * (b[0] - a[0]), a[1] + t * (b[1] - a[1])]
+        elif fam == "decimal-collinear":
+            # a, b and p lie on one line in DECIMAL arithmetic; their float64 images generally do not
+            x0, y0 = r.randrange(0, 900), r.randrange(0, 900)
+            dx, dy = r.randrange(-40, 41), r.randrange(-40, 41)
+            if dx == 0 and dy == 0:
+                continue
+            nn = r.randrange(2, 12)
+            mm = r.randrange(1, nn)
+            a = [x0 / dec, y0 / dec]
+            b = [(x0 + nn * dx) / dec, (y0 + nn * dy) / dec]
+            p = [(x0 + mm * dx) / dec, (y0 + mm * dy) / dec]
+        elif fam == "decimal-near":
+            t = r.random()
+            p = [round((a[0] + t * (b[0] - a[0])) * dec) / dec, round((a[1] + t * (b[1] - a[1])) * dec) / dec]
+        elif fam == "endpoint":
+            p = r.choice([a, b])[:]
+        else:
+            p = [2 * b[0] - a[0], 2 * b[1] - a[1]]
+        c = [r.randrange(0, 1000) / dec, r.randrange(0, 1000) / dec]
+        out.append(dict(fam=fam, line=[[ec.to_exact(v) for v in q] for q in (c, a, b)], p=[ec.to_exact(v) for v in p]))
+    return out
+
+
+def float_pipe(ctx, verdict, cases, name="online-float"):
+    """IsOnLine / PointIntersectsLine on float inputs, decided exactly by Apalache (ExactGeom!OnLine, OnSeg)."""
+    drv = [dict(ring=c["line"], n=0, qs=[c["p"]]) for c in cases]
+    obs = list(vlib.run_driver(ctx, "locate", drv, for_tlc=False))
+    exprs, sigs = [], []
+    for c, o in zip(cases, obs):
+        if o["ev"] != "ok":
+            exprs.append("FALSE")
+            sigs.append("locate|float|" + o["ev"])
+            continue
+        sin = [v for q in o["xring"] for v in q] + o["xqs"][0]
+        ints, _, k = ec.obs_ints(sin, [])
+        m = len(o["xring"])
+        ring = "<<" + ", ".join(ec.tla_pt(ints[2 * j:2 * j + 2]) for j in range(m)) + ">>"
+        pt = ec.tla_pt(ints[2 * m:2 * m + 2])
+        a, b = ec.tla_pt(ints[0:2]), ec.tla_pt(ints[2:4])
+        exprs.append("(OnLine(%s, %s) = %s) /\\ (OnSeg(%s, %s, %s) = %s)" % (
+            pt, ring, "TRUE" if o["online"][0] else "FALSE", pt, a, b, "TRUE" if o["onseg1"][0] else "FALSE"))
+        sigs.append("locate|float|IsOnLine|" + c["fam"])
+    return ec.apalache_obs(ctx, verdict, "OnLineX", exprs, cases, sigs, name, per_module=110)
+
+
+PIPES["online-float"] = float_pipe
+
+
 def run(ctx, verdict):
     ec.family(ctx, verdict, "locate", nontrivial=lambda c: len({tuple(p) for p in c["ring"]}) >= 3)
     cases = seeded(ctx.seed, 1500 if ctx.quick else 20000)
     vlib.note_cases(ctx, cases, nontrivial=lambda c: len({tuple(p) for p in c["ring"]}) >= 3)
     ec.pipe("locate")(ctx, verdict, cases)
+    fcases = float_cases(ctx.seed, 640 if ctx.quick else 8000)
+    vlib.note_cases(ctx, fcases)
+    float_pipe(ctx, verdict, fcases)
+    ctx.coverage_extra["float_tier"] = dict(cases=len(fcases), checker="Apalache on ExactGeom!OnLine / OnSeg (exact integers)")
     ctx.coverage_extra["seeded"] = dict(rings=len(cases), grids=[6, 12, 30, 100, 1000, 4000], queries_per_ring="<= 48")
     ctx.assumptions += ["rings: every vertex sequence of 3..K points on the N x N grid (self-intersecting, repeated and "
                         "collinear vertices included), closed by the driver; each ring also reversed, rotated, with "
